@@ -632,6 +632,10 @@ func (c *Client) proposalParent(prop ChannelProposal, partIdx channel.Index) (pa
 	case *SubChannelProposalMsg:
 		parentChannelID = &prop.Parent
 	case *VirtualChannelProposalMsg:
+		if int(partIdx) >= len(prop.Parents) {
+			err = errors.Errorf("proposal has %d parent channels, need index %d", len(prop.Parents), partIdx)
+			return
+		}
 		parentChannelID = &prop.Parents[partIdx]
 	}
 
